@@ -1,6 +1,8 @@
 package rules
 
 import (
+	"fmt"
+	"os"
 	"go/token"
 	"go/types"
 	"strings"
@@ -348,7 +350,82 @@ func paramFilledBy(p *core.Prog, prm *ssa.Parameter, pred func(ssa.Value) bool) 
 	return found
 }
 
+// c18RetryState: a retried call must not see the previous attempt's decoded
+// response. A variable that outlives the attempt (captured by the closure
+// given to RunWithRetry) and is filled in place (its address is passed to a
+// decoder) is re-initialised at the start of every attempt, before anything
+// is called: encoding/json merges into a non-nil map and skips an empty body.
+func c18RetryState(p *core.Prog, r *core.Report) {
+	n := 0
+	for _, cs := range p.CallsTo("Channel.RunWithRetry") {
+		if !p.InAnalysed(cs.Fn) {
+			continue
+		}
+		args := core.CallArgs(cs.Call)
+		fnArg := args[len(args)-1]
+		if ct, isCT := fnArg.(*ssa.ChangeType); isCT {
+			fnArg = ct.X
+		}
+		mc, ok := fnArg.(*ssa.MakeClosure)
+		if !ok {
+			continue
+		}
+		cl := mc.Fn.(*ssa.Function)
+		for k, fv := range cl.FreeVars {
+			if _, isAlloc := mc.Bindings[k].(*ssa.Alloc); !isAlloc {
+				continue
+			}
+			passed := false
+			if os.Getenv("TCHK_DEBUG") != "" {
+				fmt.Printf("DEBUG retry closure %s freevar %s binding %T\n", cl, fv.Name(), mc.Bindings[k])
+			}
+			core.EachInstr(cl, func(i ssa.Instruction) {
+				if c, isC := i.(ssa.CallInstruction); isC {
+					for _, a := range c.Common().Args {
+						for {
+							if mi, isMI := a.(*ssa.MakeInterface); isMI {
+								a = mi.X
+								continue
+							}
+							if ct, isCT := a.(*ssa.ChangeType); isCT {
+								a = ct.X
+								continue
+							}
+							break
+						}
+						if a == ssa.Value(fv) {
+							passed = true
+						}
+					}
+				}
+			})
+			if !passed {
+				continue
+			}
+			n++
+			reset := false
+			for _, i := range cl.Blocks[0].Instrs {
+				if st, isSt := i.(*ssa.Store); isSt && st.Addr == ssa.Value(fv) {
+					reset = true
+					break
+				}
+				if c, isC := i.(ssa.CallInstruction); isC {
+					if _, isB := c.Common().Value.(*ssa.Builtin); !isB {
+						break
+					}
+				}
+			}
+			r.Check(reset, "C18-R4", fname(cs.Fn), "per-attempt reset of "+fv.Name()+" (decoded in place across retries)", p.Pos(mc.Pos()),
+				"assigned at the top of the retry closure before any call", "the response value "+fv.Name()+" decoded by a failed attempt survives into the next attempt (stale headers/error merged into the successful response)")
+		}
+	}
+	if n == 0 {
+		r.Errorf("no retry closure with an in-place decoded response variable found (json.Client.Call expected)")
+	}
+}
+
 func c18Plumbing(p *core.Prog, r *core.Report) {
+	c18RetryState(p, r)
 	through := map[string]int{"InjectOutboundSpan": 1}
 	isCtxHeaders := func(v ssa.Value) bool {
 		c, ok := v.(*ssa.Call)
